@@ -955,3 +955,41 @@ def duplicate_later_blamed(run, R="SPAN"):
     ok = bool(pushes) and cmp_ and all(deep(f, t["args"][2], 6) not in span_params for bi, t in pushes)
     run.check(ok, R, R + "|duplicate|later-blamed", f.loc(), "a duplicate declaration is located at the later of the two spans (chosen by comparing their locations)",
               "SymbolManager::declare locates the duplicate error at whichever declaration was collected second: `#fn f(x) => x + 1` on line 1 and a label `f:` on line 4 are reported at line 1, the valid declaration (functions are collected after labels; the contents of #if blocks last)")
+
+
+def const_str_slices(run, R="UNIT4"):
+    """a text is never sliced at a constant, non-zero byte offset unless the bytes before it are known to be one-byte characters:
+    `&text[..4]` panics when a multi-byte character straddles byte 4.  The three sites of the pinned tree follow a test of the
+    first character against an ASCII letter or quote and are listed with that reason; any other site is reported"""
+    from rules_sym import deep
+    audited = {e["key"]: e["reason"] for e in run.table("unit").get("const_str_slices", [])}
+    n = 0
+    for f in run.prog.real_fns():
+        for bi, t in f.calls():
+            tys = t.get("arg_tys") or []
+            if not (t.get("callee") or "").endswith("Index::index") or len(tys) < 2 or not re.fullmatch(r"&(mut )?(str|std::string::String)", tys[0]):
+                continue
+            n += 1
+            d = deep(f, t["args"][1], 5)
+            consts = []
+            m = re.search(r"start: (\d+)_usize", d)
+            if m and int(m.group(1)) != 0:
+                consts.append("from:%s" % m.group(1))
+            m = re.search(r"end: (\d+)_usize", d)
+            if m and int(m.group(1)) != 0:
+                consts.append("to:%s" % m.group(1))
+            if not consts:
+                # a named constant as a bound
+                for side in ("start", "end"):
+                    m = re.search(side + r": ((?:[a-z_0-9]+::)*[A-Z][A-Z0-9_]{2,})\b", d)
+                    if m:
+                        consts.append("%s:%s" % ("from" if side == "start" else "to", m.group(1).split("::")[-1]))
+            root = f.raw.get("root") or f.id
+            for c in consts:
+                key = "%s|%s" % (root, c)
+                if key in audited:
+                    run.exception(R, "%s|%s" % (R, key), f.loc(t["span"]), "text sliced at a constant byte offset: %s" % audited[key])
+                else:
+                    run.violation(R, "%s|%s" % (R, key), f.loc(t["span"]),
+                                  "%s slices a text at the constant byte offset `%s` without the bytes before it being known to be one-byte characters: the slice panics (`byte index is not a char boundary`) when a multi-byte character straddles that offset, e.g. an instruction `ld\u20ac 5`" % (root.rsplit("::", 1)[-1], c))
+    run.floor(R, "text slicing sites", n, 9)
